@@ -31,7 +31,7 @@ def plan(tier, seed):
 
 
 def required(tier):
-    return {"linearity": 25, "theta-scaling": 60, "refsize-integrator": 30, "refsize-phi_1D": 25, "refsize-program": 5, "time-shift-invariant": 20,
+    return {"linearity": 25, "theta-scaling": 60, "refsize-integrator": 30, "refsize-phi_1D": 25, "refsize-program": 5, "time-shift-invariant": 20, "empty-density-receives-mutations": 30,
             "linearity-program": 5}
 
 
@@ -164,8 +164,13 @@ def run_integ(spec, rec, Integration, kind):
             # from an empty density the result is proportional to theta0
             ok5, r5 = rec.noraise("driver-returns", lambda: f(np.zeros((L,) * nd), xx, T, theta0=th1, **kw), site=site, tags=tags)
             ok6, r6 = rec.noraise("driver-returns", lambda: f(np.zeros((L,) * nd), xx, T, theta0=th2, **kw), site=site, tags=tags)
-            if ok5 and ok6 and np.max(np.abs(r5)) > 0:
-                rec.close("theta-scaling", relerr(np.asarray(r6) / th2, np.asarray(r5) / th1), TOL, site=site, tags=tags)
+            if ok5 and ok6:
+                # an empty density is not a fixed point: mutations enter every population that is neither frozen nor nomut
+                receives = any(not kw.get("frozen%d" % (i + 1), False) and not kw.get("nomut%d" % (i + 1), False) for i in range(nd))
+                if receives:
+                    rec.check("empty-density-receives-mutations", bool(np.max(np.abs(r5)) > 0 and np.max(np.abs(r6)) > 0), site=site, tags=tags)
+                if np.max(np.abs(r5)) > 0:
+                    rec.close("theta-scaling", relerr(np.asarray(r6) / th2, np.asarray(r5) / th1), TOL, site=site, tags=tags)
         else:
             c = float([20.0, 0.05, np.exp(rng.uniform(np.log(0.05), np.log(20))), np.exp(rng.uniform(np.log(0.05), np.log(20)))][0 if ci < 2 * nd else ci % 4])
             kwt = dict(kw, theta0=th1)
